@@ -165,7 +165,7 @@ def finish(pid, tier, seed, mres, kres, infra_err, t0, ev_path):
     for l in lines:
         print(l)
     for msg in inconclusive:
-        print("INCONCLUSIVE:", msg[:1500])
+        print("INCONCLUSIVE:", msg[:400])
     print(f"check {pid} {tier}: {status} — {len(mres)} engine-M harnesses, {len(kres)} Kani harnesses, {discharged}/{obligations} obligations discharged, "
           f"{paths} paths, {tv_agree}/{tv} translator-validation vectors agree, solver {round(solver_time, 1)} s, wall {ev['wall_s']} s")
     return code
